@@ -119,11 +119,14 @@ def m_create():
 def m_delete():
     p = Person.get(id=3)
     if p is not None: p.delete()
+def m_bulkdelete():
+    # one DELETE statement sent at once; the identity map is bypassed, the session's query results must not be
+    Person.select(lambda p: p.id == 4).delete(bulk=True)
 def m_commit(): commit()
 def m_rollback(): rollback()
-MODS = dict(assign=m_assign, create=m_create, delete=m_delete, commit=m_commit, rollback=m_rollback)
-MOD_NAMES = ('assign', 'create', 'delete', 'commit', 'rollback')
-DATA_MODS = ('assign', 'create', 'delete')
+MODS = dict(assign=m_assign, create=m_create, delete=m_delete, bulkdelete=m_bulkdelete, commit=m_commit, rollback=m_rollback)
+MOD_NAMES = ('assign', 'create', 'delete', 'bulkdelete', 'commit', 'rollback')
+DATA_MODS = ('assign', 'create', 'delete', 'bulkdelete')
 
 # ---- the pool ---------------------------------------------------------------------------------------
 class ENT(object):
